@@ -22,6 +22,7 @@ CONSTANTS Exprs,              \* expression names
           MaxStack,           \* bound on stack depth (model only)
           ResetKeepsMarkers,  \* as built at 519253d: NavigationState::reset() does not clear place_markers
           IterMayNotPush,     \* environment assumption about the rules: a retried iteration may leave the stack alone
+          PopStackByCount,    \* as built at 519253d: pop_stack(count) pops `count` entries below the top whoever pushed them
           MoveCmds,           \* subset of {"Move", "Zoom"}: command classes that push (model size knob)
           ReadCmds            \* subset of {"Read", "Describe", "WhereAmI", "Toggle"}: classes that never move
 
@@ -91,11 +92,15 @@ Move(c) ==
            \* pushed; pop_stack(count) pops `count` entries below the top *whether or not* the iterations pushed them, so
            \* with IterMayNotPush = TRUE it eats entries of earlier commands (TLC: UndoReturns is then violated)
            pushedEach == (k >= 2 => (st1 # st0 /\ st2 # st1)) /\ (k >= 3 => st3 # st2)
-           fin == PopStack(st3, k - 1)
+           \* after the fix only the positions pushed by THIS command (above the stack length at its start) are intermediate
+           own == Len(st0[1])
+           fin == IF PopStackByCount THEN PopStack(st3, k - 1)
+                  ELSE IF k = 1 \/ Len(st3[1]) <= own + 1 THEN st3
+                  ELSE Push(<<SubSeq(st3[1], 1, own), SubSeq(st3[2], 1, own)>>, TopN(st3), TopC(st3))
        IN /\ (IterMayNotPush \/ pushedEach)
           /\ Len(fin[1]) <= MaxStack
           /\ pstack' = fin[1] /\ cstack' = fin[2]
-          /\ act' = Act(IF k > 1 /\ UnwrapNone(PopSt(st3), k - 1) THEN "panic" ELSE c, Pos, t[k])
+          /\ act' = Act(IF PopStackByCount /\ k > 1 /\ UnwrapNone(PopSt(st3), k - 1) THEN "panic" ELSE c, Pos, t[k])
   /\ UNCHANGED <<expr, marker>>
 
 \* MoveTo<m>: the rule sets NavNode to the marker; pushed like any Move (guarded by the illegal-id test)
